@@ -38,6 +38,9 @@ func returnsWALBatch(fn *types.Func) bool {
 }
 
 func runC02(c *Ctx) {
+	defer ruleSizeWithBytes(c, "C02.40")
+	defer ruleAppendedPageDirty(c, "C02.41")
+	defer ruleStampAfterSuccess(c, "C02.42")
 	defer c11MarkDirty(c, "C02.39")
 	defer ruleBatchNotOverwritten(c, "C02.38")
 	c02LogBeforeAck(c, "C02.1")
